@@ -288,6 +288,18 @@ func Harness_C14_variables() {
 	var seen *ComplexityStats
 	ex.Use(&ComplexityLimit{Func: func(ctx context.Context, opCtx *graphql.OperationContext) int { return limit }})
 	ctx := graphql.StartOperationTrace(context.Background())
+	if prior := zzsym.Choice("prior", 3); prior > 0 {
+		// the same text was served before with another value of the variable, with a query cache (the parsed
+		// document is shared between the two requests): the gate judges each request by its own variables
+		ex.SetQueryCache(graphql.MapCache[*ast.QueryDocument]{})
+		other := []int64{1000, 0}[prior-1]
+		rc0, errs0 := ex.CreateOperationContext(ctx, &graphql.RawParams{Query: c.query, Variables: c.vars(other, form)})
+		if len(errs0) == 0 {
+			h0, hctx0 := ex.DispatchOperation(ctx, rc0)
+			h0(hctx0)
+		}
+		es.execs = 0
+	}
 	rc, errs := ex.CreateOperationContext(ctx, &graphql.RawParams{Query: c.query, Variables: c.vars(n, form)})
 	want := c.cost(n)
 	if rc != nil {
